@@ -37,6 +37,14 @@ def gen_cases(ck):
                       "angle": float(ck.rng.uniform(0, 6.28)), "scale": float(10.0 ** ck.rng.uniform(-1, 2)), "shift": [0.0, 0.0],
                       "nframes": int(ck.rng.integers(2, 5)), "field": "random", "bound_factor": 0.45, "renumber": "zero", "cm": bool(i % 2),
                       "guess_frac": [0.0, 0.3][(i // 2) % 2], "guess_zero": True, "times": "equal"})
+    for i in range(6 if ck.tier == "quick" else 40):
+        # large tissues (the junction spacing is a small fraction of the extent, so several search shells matter) moved by nearly
+        # half the spacing: the successor and another free end point enter the search disc in the same shell
+        cases.append({"type": "series", "seed": int(ck.rng.integers(1 << 30)), "tissue": ["hex", "jitter", "random"][i % 3],
+                      "sites": int(ck.rng.integers(70, 120)), "subset": None, "min_ridge": 0.01, "mobius": False, "kmin": 0, "kmax": 2,
+                      "angle": float(ck.rng.uniform(0, 6.28)), "scale": float(10.0 ** ck.rng.uniform(-1, 2)), "shift": [0.0, 0.0],
+                      "nframes": int(ck.rng.integers(2, 5)), "field": ["drift", "random", "flow"][(i // 3) % 3], "bound_factor": 0.92,
+                      "renumber": True, "cm": False, "guess_frac": 0.0, "times": "equal"})
     for i in range(8 if ck.tier == "quick" else 50):
         # tall tissues with few, widely spaced junctions lying right of the diagonal (min x > max y), moved by more than 8 % of their
         # width but less than 8 % of their height: the property's bound refers to the larger of the two extents
